@@ -20,7 +20,7 @@ ASSUMPTIONS = ["node labels are unique strings so that rows of the returned tabl
 EXHAUSTIVE = {"quick": ["all strings len<=3 over AC as one repertoire, k=1..3, 4 clustering methods"],
               "thorough": ["all strings len<=4 over AC and len<=3 over ACD as repertoires, k=1..3, 4 clustering methods",
                            "hierarchical: 4 methods x 2 criteria x t in 1..4 on fixed witnesses"]}
-REQUIRE = {"hier_explicit_metric_calls": 13, "hier_metric_sequences": 3, "graph_cc_cases": 13, "graph_community_cases": 16, "empty_neighbour_list_cases": 2, "isolated_node_cases": 15,
+REQUIRE = {"hier_empty_linkage_kws": 1, "graph_lists_over_65536_entries": 1, "graph_synthetic_cases": 1, "hier_explicit_metric_calls": 13, "hier_metric_sequences": 3, "graph_cc_cases": 13, "graph_community_cases": 16, "empty_neighbour_list_cases": 2, "isolated_node_cases": 15,
            "d0_edge_cases": 10, "series_node_label_cases": 8, "hier_cases": 27, "hier_table_cases": 6, "hier_nondefault_index": 8,
            "identity_cases": 10, "identity_multi_member": 9, "hier_t_zero_cases": 3, "asymmetric_neighbour_lists": 3, "duplicate_node_label_cases": 3}
 SHARDS = {"quick": 4, "thorough": 16}
